@@ -15,7 +15,12 @@
              'MatchAll results are read as a set in document order (the engine returns duplicates and its '
              'own order for "//a//b"); generated predicates keep filtered steps x[..] out of the LEFT '
              'operand of and/or (antchfx/xpath v1.1.11 evaluates the right operand on a moved context '
-             'there)'],
+             'there)',
+             'process-wide state shared by readers is not in the model (a reader model has none): checked on the implementation by '
+             'the interleaving oracle - 2-3 readers alive at once on one goroutine, read alternately with random switch points, '
+             'each must deliver what it delivers alone (same URI under different prefixes, and random XML/JSON pairs)',
+             'namespace declarations on inner elements: the model takes the names as the reader resolves them (document-wide '
+             'last-wins URI->prefix map, F11); stream vs whole-document selection is compared through the same resolution'],
  'assumptions': ['xml_no_doc_target: the path part does not select the XML document node itself (targets "." '
                  'and "/" make the XML reader deliver the top-level elements instead)',
                  'releases are of the node the last Read returned (or absent)']}
